@@ -786,7 +786,15 @@ def c10b_archetype_clone_copies_all_parts(prog):
                 once('identifier', 'the clone\'s identifier is not a clone of the source\'s')
             if not (fld_of(parts['entity_identifiers'], me, 'entity_identifiers') and fld_of(parts['entity_identifiers'], me, 'length') and has_call(parts['entity_identifiers'], lambda n: n in ('clone', 'to_vec', 'to_owned'))):
                 once('entity-identifiers', 'the clone\'s identifier column is not a copy of the source\'s identifier column (rebuilt with the source\'s length)')
-            if not (fld_of(parts['components'], me, 'components') and fld_of(parts['components'], me, 'length') and has_call(parts['components'], lambda n: n == 'clone_components')):
+            ok_cols = fld_of(parts['components'], me, 'components') and fld_of(parts['components'], me, 'length') and has_call(parts['components'], lambda n: n == 'clone_components')
+            if not ok_cols:
+                # out-parameter form: clone_components(self.components, &mut new_columns, self.length, ..) fills the Vec
+                # that becomes the clone's column list
+                for e in p.calls(lambda e: e['name'] == 'clone_components'):
+                    srcs = list(e['args']) + list(e['vals'])
+                    if any(fld_of(x, me, 'components') for x in srcs) and any(fld_of(x, me, 'length') for x in srcs) and any(S(v_) == S(parts['components']) for v_ in e['vals']):
+                        ok_cols = True
+            if not ok_cols:
                 once('components', 'the clone\'s component columns are not produced by clone_components over the source\'s columns and length')
     f = impl_fn('clone_from')
     if f is None:
